@@ -232,6 +232,80 @@ impl<C: SymBridge> Lab<C> for SymLab<C> {
     fn rng_requests(&self) -> Vec<usize> {
         symcore::with(|c| c.rng_log.iter().map(|x| x.0).collect())
     }
+    fn jointly_uniform(&mut self, values: &[Scalar<C>], what: &str) -> bool {
+        let vals: Vec<u32> = values.iter().map(|v| C::s_out(*v).0).collect();
+        symcore::with(|c| {
+            // the draws the values depend on
+            let draws: Vec<u32> = c.rng_log.iter().map(|x| x.1).collect();
+            let mut cols: Vec<u32> = vec![];
+            for v in vals.iter() {
+                for a in c.deep_support(*v).iter() {
+                    if draws.contains(a) && !cols.contains(a) {
+                        cols.push(*a);
+                    }
+                }
+            }
+            // Jacobian by substitution; slopes are constants where the dependence is affine
+            let mut numeric = false;
+            let mut rows: Vec<Vec<symcore::U>> = vec![];
+            for v in vals.iter() {
+                let mut row = vec![];
+                for d in cols.iter() {
+                    let d1 = c.add(*d, 1);
+                    let shifted = c.subst(*v, *d, d1);
+                    let slope = c.sub(shifted, *v);
+                    // a constant: the same value in every model of the path, confirmed by the solver
+                    let k0 = c.eval(0, slope);
+                    let same = (1..c.cfg.n_worlds).all(|w| c.eval(w, slope) == k0);
+                    let kc = c.cst(k0);
+                    let is_const = c.const_of(slope).is_some() || (same && c.z3_valid_eq(slope, kc, c.cfg.final_timeout_ms) == Some(true));
+                    if !is_const {
+                        // a non-affine (e.g. hashed) dependence on the draw: the finite difference in the
+                        // witness model stands in for the slope (generic rank; noted in the detail)
+                        numeric = true;
+                    }
+                    row.push(k0);
+                }
+                rows.push(row);
+            }
+            // rank over Z_q by Gaussian elimination
+            let m = c.m.clone();
+            let (nr, nc) = (rows.len(), cols.len());
+            let mut rank = 0usize;
+            let mut col = 0usize;
+            while rank < nr && col < nc {
+                if let Some(piv) = (rank..nr).find(|r| !rows[*r][col].is_zero()) {
+                    rows.swap(rank, piv);
+                    let inv = m.inv(&rows[rank][col]).expect("non-zero mod prime");
+                    for j in col..nc {
+                        rows[rank][j] = m.mul(&rows[rank][j], &inv);
+                    }
+                    for r in 0..nr {
+                        if r != rank && !rows[r][col].is_zero() {
+                            let f = rows[r][col];
+                            for j in col..nc {
+                                let t = m.mul(&f, &rows[rank][j]);
+                                rows[r][j] = m.sub(&rows[r][j], &t);
+                            }
+                        }
+                    }
+                    rank += 1;
+                }
+                col += 1;
+            }
+            let ok = rank == nr;
+            let det = format!("{nr} value(s) depend on {nc} draw(s) of the caller's source ({}); Jacobian rank over Z_q = {rank}", if numeric { "not everywhere affine: finite differences in the witness model" } else { "affinely, constant slopes confirmed by the solver" });
+            c.record("ID", what, ok, det.clone());
+            if !ok {
+                c.fail(what, det, false);
+            }
+            ok
+        })
+    }
+    fn jointly_uniform_e(&mut self, values: &[Element<C>], what: &str) -> bool {
+        let v: Vec<Scalar<C>> = values.iter().map(|e| C::s_in(C::e_out(*e).dlog())).collect();
+        self.jointly_uniform(&v, what)
+    }
     fn depends_on_draw(&mut self, out: Scalar<C>, k: usize, what: &str) -> bool {
         let out = C::s_out(out);
         symcore::with(|c| {
